@@ -1884,6 +1884,11 @@ def decompress(file_obj, file_type):
 
     if file_type.endswith("zip"):
         archive = zipfile.ZipFile(file_obj)
+        # `zipfile` trusts the sizes in the central directory and reading a
+        # member from a real file allocates `compress_size` bytes up front
+        file_obj.seek(0, 2)
+        if any(i.compress_size > file_obj.tell() for i in archive.infolist()):
+            raise zipfile.BadZipFile("member is larger than the archive!")
         return {name: wrap_as_stream(archive.read(name)) for name in archive.namelist()}
     if file_type.endswith("bz2"):
         import bz2
